@@ -352,6 +352,7 @@ pub(crate) mod verif_probe {
                         let (g, phase) = (l.clock, l.phase);
                         l.reqs.push(RefReq { g, conn, phase, bytes, delivered: deliver.clone(), before, status_after: t.status });
                     }
+                    if code == b'Q' && body.windows(8).any(|w| w == b"pg_sleep") { tokio::time::sleep(Duration::from_millis(1500)).await; }
                     let flat: Vec<u8> = deliver.concat();
                     if !flat.is_empty() && sock.write_all(&flat).await.is_err() { return; }
                     if close { return; }
@@ -380,12 +381,18 @@ pub(crate) mod verif_probe {
         let log: SharedLog = Arc::new(Mutex::new(RefLog::default()));
         let csmap: ClientServerMap = Arc::new(Mutex::new(HashMap::new()));
         crate::query_router::QueryRouter::setup();
+        {
+            let mut cfg = crate::config::Config::default();
+            cfg.general.idle_client_in_transaction_timeout = v["idle_timeout_ms"].as_u64().unwrap_or(0);
+            crate::config::verif_probe::set_config(cfg);
+        }
         // shards: [[role, ...], ...]  (or the single-shard shorthand "roles")
         let shard_roles: Vec<Vec<String>> = match v["shards"].as_array() {
             Some(a) => a.iter().map(|s| s.as_array().unwrap().iter().map(|x| x.as_str().unwrap().to_string()).collect()).collect(),
             None => vec![v["roles"].as_array().map(|a| a.iter().map(|x| x.as_str().unwrap().to_string()).collect()).unwrap_or(vec!["primary".to_string()])],
         };
-        let user = User { username: usern.clone(), password: None, auth_type: AuthType::Trust, pool_size: 1, ..User::default() };
+        let user = User { username: usern.clone(), password: None, auth_type: AuthType::Trust, pool_size: 1,
+                          statement_timeout: v["statement_timeout_ms"].as_u64().unwrap_or(0), ..User::default() };
         let mut all_addrs = vec![]; let mut all_pools = vec![];
         let cache_size = v["cache"].as_u64().unwrap_or(0) as usize;
         let auth_hash = Arc::new(RwLock::new(None));
@@ -450,6 +457,7 @@ pub(crate) mod verif_probe {
         if let Some(steps) = v["steps"].as_array() {
             for st in steps {
                 if let Some(h) = st["send_hex"].as_str() { let _ = a.write_all(&unhex(h)).await; a_out.extend(drain(&mut a, 150).await); }
+                else if let Some(ms) = st["sleep_ms"].as_u64() { tokio::time::sleep(Duration::from_millis(ms)).await; a_out.extend(drain(&mut a, 50).await); }
                 else if st["pause"].as_bool() == Some(true) { pool.pause(); }
                 else if st["resume"].as_bool() == Some(true) { pool.resume(); }
                 else if st["shutdown"].as_bool() == Some(true) { let _ = shutdown_tx.send(()); a_out.extend(drain(&mut a, 150).await); }
@@ -477,6 +485,8 @@ pub(crate) mod verif_probe {
         let mut b_out: Vec<u8> = vec![];
         let mut b_state = "not-run".to_string();
         if v["probe_b"].as_bool().unwrap_or(true) && !paused_at_end {
+            // let a backend that is still busy with a slow statement of client A finish (its late reply then sits unread in the socket)
+            if v["statement_timeout_ms"].as_u64().is_some() { tokio::time::sleep(Duration::from_millis(1800)).await; }
             { log.lock().phase = 2; }
             let (mut b, _b_task) = connect_client_with(&db, &usern, csmap.clone(), &shutdown_tx, &v["b_startup_params"]);
             if read_until_ready(&mut b).await.is_none() { b_state = "login failed".to_string(); }
@@ -485,7 +495,8 @@ pub(crate) mod verif_probe {
                     Some(h) => { let _ = b.write_all(&unhex(h)).await; }
                     None => { let _ = b.write_all(&simple_query("SELECT 1")).await; }
                 }
-                b_out = drain(&mut b, 400).await;
+                // (a backend that is still busy with a slow statement of the previous client answers late)
+                b_out = drain(&mut b, if v["statement_timeout_ms"].as_u64().is_some() { 2500 } else { 400 }).await;
                 b_state = "ran".to_string();
             }
         }
